@@ -19,8 +19,10 @@ one() { # worker-index, ids...
     if ! ( cd $WT && git apply --check $D/patch.diff ) 2>/tmp/rv-$ID-apply.txt; then
       echo "{\"head\": \"$HEAD\", \"applies\": false}" > $D/reval.json; echo "$ID: patch does not apply at $HEAD"; continue
     fi
-    CONF=$(./tools/confirm_seed.sh $WT $D $ID 2>&1 | grep "^seed")
-    OUT=$(MUT_SEEDS="1 2" ./tools/mutcheck.sh $WT $D/patch.diff $P 2>&1)
+    [ -f $D/reval.json ] && [ -z "${REVAL_ALL:-}" ] && grep -q "\"head\": \"$HEAD\"" $D/reval.json && { echo "$ID: already re-validated at $HEAD"; continue; }
+    CONF=$(CONFIRM_LITE=1 ./tools/confirm_seed.sh $WT $D $ID 2>&1 | grep "^seed")
+    OUT=$(MUT_SEEDS="1" ./tools/mutcheck.sh $WT $D/patch.diff $P 2>&1)
+    echo "$OUT" | grep -q " : 0 violation lines" && OUT=$(MUT_SEEDS="1 2" ./tools/mutcheck.sh $WT $D/patch.diff $P 2>&1)
     python3 - "$ID" "$HEAD" "$CONF" "/tmp/vd-rv-$K" "$P" <<'PY'
 import sys,json,re,os
 sid,head,conf,vd,prop=sys.argv[1:6]
